@@ -1599,9 +1599,13 @@ func (c *equivChecker) cuttableLoops() map[string]bool {
 	return out
 }
 
-// fnInBaseline: does the function with this SSA name exist in the snapshot?
+// fnInBaseline: does the function with this SSA name exist in the snapshot and in the tree?
+// (A helper one version does not have is never cut: its loop has no counterpart by position.)
 func (c *equivChecker) fnInBaseline(ssaName string) bool {
 	for k := range c.base.decls {
+		if _, stillThere := c.base.newDecls[k]; !stillThere {
+			continue
+		}
 		name := modulePath + "/" + k.dir + "." + k.name
 		if k.recv != "" {
 			if ssaName == "(*"+modulePath+"/"+k.dir+"."+k.recv+")."+k.name || ssaName == "("+modulePath+"/"+k.dir+"."+k.recv+")."+k.name {
